@@ -188,6 +188,20 @@ func nonNilMaker(v ssa.Value) bool {
 // its error operand is nil, or of unknown nil-ness and not proven non-nil by
 // a dominating `!= nil` branch.
 func canSucceed(r *ssa.Return) bool {
+	// The guard queries below can come back here through virtually inlined
+	// helpers (call-site guards -> callee-established facts -> canSucceed);
+	// a re-entrant question is answered conservatively ("may succeed").
+	if canSucceedBusy[r] {
+		return true
+	}
+	canSucceedBusy[r] = true
+	defer delete(canSucceedBusy, r)
+	return canSucceed1(r)
+}
+
+var canSucceedBusy = map[*ssa.Return]bool{}
+
+func canSucceed1(r *ssa.Return) bool {
 	v := errOperand(r)
 	if v == nil {
 		return true
@@ -244,16 +258,75 @@ type Site struct {
 	Desc string
 }
 
+// VSite is a site with its call string.
+type VSite struct {
+	Site
+	// Ctx is the call string (outermost first) through virtually inlined
+	// helpers that leads to In; empty when In lies in the rule's function.
+	Ctx []ssa.CallInstruction
+}
+
+// Call returns the site's instruction as a call.
+func (s VSite) Call() ssa.CallInstruction { c, _ := s.In.(ssa.CallInstruction); return c }
+
+// guardedSite is guardedBy for a site with a call-string context: the guard
+// may sit around the site itself or around any call on the string leading to it.
+func guardedSite(s VSite, alts ...FP) (bool, int) {
+	if len(s.Ctx) == 0 {
+		return guardedBy(s.In, alts...)
+	}
+	total := 0
+	chain := []ssa.Instruction{s.In}
+	for i := len(s.Ctx) - 1; i >= 0; i-- {
+		chain = append(chain, s.Ctx[i])
+	}
+	for _, in := range chain {
+		cut := factEdgesAlts(in.Parent(), 0, alts...)
+		total += len(cut)
+		if len(cut) > 0 && !reachable(in.Parent(), nil, cut)[in.Block()] {
+			return true, total
+		}
+	}
+	return false, total
+}
+
+// callSitesV lists the calls matching pred in fn and, with their call strings,
+// in the helpers virtually inlined into fn (one entry per call string).
+func callSitesV(fn *ssa.Function, pred func(string) bool) []VSite {
+	var out []VSite
+	var walk func(f *ssa.Function, ctx []ssa.CallInstruction, d int)
+	walk = func(f *ssa.Function, ctx []ssa.CallInstruction, d int) {
+		for _, g := range []*ssa.Function{f} {
+			for _, k := range calls(g) {
+				if pred(calleeName(k)) {
+					out = append(out, VSite{Site: Site{In: k, Desc: calleeName(k)}, Ctx: append([]ssa.CallInstruction(nil), ctx...)})
+					continue
+				}
+				if h := k.Common().StaticCallee(); h != nil && d < 3 && h != f && isNewHelper(h) {
+					walk(h, append(append([]ssa.CallInstruction(nil), ctx...), k), d+1)
+				}
+			}
+		}
+	}
+	walk(fn, nil, 0)
+	return out
+}
+
 // requireGuard records one obligation: site is unreachable once every edge
 // carrying one of the alternative facts is removed.
 func (c *Ctx) requireGuard(rule string, fn *ssa.Function, s Site, alts ...FP) bool {
+	return c.requireGuardV(rule, fn, VSite{Site: s}, alts...)
+}
+
+// requireGuardV is requireGuard for a site reached through a call string.
+func (c *Ctx) requireGuardV(rule string, fn *ssa.Function, s VSite, alts ...FP) bool {
 	var descs []string
 	for _, a := range alts {
 		descs = append(descs, a.Desc)
 	}
 	fact := strings.Join(descs, " OR ")
 	construct := fmt.Sprintf("%s: %s requires [%s]", fnName(fn), s.Desc, fact)
-	ok, n := guardedBy(s.In, alts...)
+	ok, n := guardedSite(s, alts...)
 	if n == 0 {
 		c.fail(rule, construct, c.pos(s.In), "no branch establishing the required fact exists in "+fnName(fn))
 		return false
@@ -269,11 +342,7 @@ func (c *Ctx) requireGuard(rule string, fn *ssa.Function, s Site, alts ...FP) bo
 }
 
 func cutEdges(fn *ssa.Function, alts ...FP) []Edge {
-	var cut []Edge
-	for _, p := range alts {
-		cut = append(cut, factEdges(fn, p)...)
-	}
-	return cut
+	return factEdgesAlts(fn, 0, alts...)
 }
 
 // witnessPath renders one entry-to-target block path avoiding the cut edges.
@@ -354,6 +423,16 @@ func storesToField(fn *ssa.Function, field string) []*ssa.Store {
 
 // dominates reports whether instruction a dominates instruction b.
 func dominates(a, b ssa.Instruction) bool {
+	if a.Parent() != b.Parent() {
+		// one of the two sits in a virtually inlined helper of the other's function
+		if lb := liftTo(a.Parent(), b); lb != nil {
+			return dominates(a, lb)
+		}
+		if la := liftToMust(b.Parent(), a); la != nil {
+			return dominates(la, b)
+		}
+		return false
+	}
 	if a.Block() == b.Block() {
 		return instrIndex(a) <= instrIndex(b)
 	}
@@ -638,7 +717,7 @@ func (c *Ctx) requireGuardAny(rule string, fn *ssa.Function, s Site, desc string
 		}
 	}
 	construct := fmt.Sprintf("%s: %s requires [%s]", fnName(fn), s.Desc, strings.Join(descs, " OR "))
-	ok, n := guardedBy(s.In, alts...)
+	ok, n := guardedSite(VSite{Site: s}, alts...)
 	if n == 0 {
 		c.fail(rule, construct, c.pos(s.In), "no branch establishing the required fact exists in "+fnName(fn))
 		return false
